@@ -393,12 +393,73 @@ static int choose(const int *en, int n, int last)
 
 static void *stacks[MAXT];
 
+/* Bounded unfairness.  The fair yield above lets a waiter fail the spin flag only a couple of times in
+ * a row while the holder is paused.  Under this policy thread A is frozen after its f-th schedule point
+ * (wherever that is inside its operation), thread B alone is run for up to K failed attempts on the
+ * flag (it is re-run although nobody made progress) or K other steps, optionally a third thread C
+ * likewise, and only then A may run again and the ordinary strategy takes over.  Prefix: A alone
+ * (pv 0), the bystanders to completion and then A (pv 1), or a seeded random walk until A has taken
+ * f steps (pv >= 2). */
+static struct {
+    int on, A, f, B, C, K, pv;
+    int phase;                  /* 0 prefix, 1 B's burst, 2 C's burst, 3 ordinary strategy */
+    int a_steps, events, fails, run_fails;
+    int a_short;                /* A finished before its f-th step: no such schedule point */
+    int spun[2];                /* B / C used up the whole budget on failed attempts */
+    int maxrun;                 /* longest run of consecutive failed attempts of one thread */
+    vrt_rng g;
+    uint64_t seed;
+} uf;
+
+/* which thread runs next while the policy is in charge; -1 = hand over to the ordinary strategy */
+static int unfair_pick(const int *en, int n)
+{
+    int i;
+    if (uf.phase == 0) {
+        if (T[uf.A].state == F_DONE) { uf.a_short = 1; uf.phase = 3; return -1; }
+        if (uf.a_steps >= uf.f) { uf.phase = 1; uf.events = uf.fails = uf.run_fails = 0; }
+        else if (uf.pv >= 2) return en[vrt_below(&uf.g, (uint32_t)n)];
+        else {
+            if (uf.pv == 1)
+                for (i = 0; i < n; i++) if (en[i] != uf.A && en[i] != uf.B && en[i] != uf.C) return en[i];
+            for (i = 0; i < n; i++) if (en[i] == uf.A) return uf.A;
+            return en[0];
+        }
+    }
+    while (uf.phase == 1 || uf.phase == 2) {
+        const int w = uf.phase == 1 ? uf.B : uf.C;
+        if (w >= 0 && T[w].state != F_DONE && uf.events < uf.K && uf.fails < uf.K) {
+            /* the unfair part: a waiter that yielded is run again although nobody else took a step */
+            if (T[w].state == F_YIELDED) T[w].state = F_RUNNABLE;
+            return w;
+        }
+        if (w >= 0 && uf.fails >= uf.K) uf.spun[uf.phase - 1] = 1;
+        uf.phase++; uf.events = uf.fails = uf.run_fails = 0;
+    }
+    return -1;
+}
+/* account for the slice thread `pick` has just run */
+static void unfair_ran(int pick)
+{
+    if (uf.phase == 0) { if (pick == uf.A) uf.a_steps++; return; }
+    if (uf.phase == 3) return;
+    if (T[pick].state == F_YIELDED) {
+        uf.fails++;
+        if (++uf.run_fails > uf.maxrun) uf.maxrun = uf.run_fails;
+    } else if (T[pick].retrying == 0) { uf.events++; uf.run_fails = 0; }
+    /* retrying == 2: stopped at the re-try of the flag, the attempt itself is the next slice */
+}
+
 static int run_execution(const struct scenario *sc)
 {
     int i, last = -1, steps = 0, r;
     nthr = sc->nthr; nH = 0; slice = 0; abandon = 0; cur = NULL;
     clear_count = memfree_count = bookfree_count = 0; clear_op = bookfree_op = -1;
     sched_hash = 0x5c4ed; ctx_switches = 0; dfs_depth = 0;
+    if (uf.on) {
+        uf.phase = uf.a_steps = uf.events = uf.fails = uf.run_fails = uf.a_short = uf.spun[0] = uf.spun[1] = uf.maxrun = 0;
+        vrt_rng_seed(&uf.g, uf.seed, (uint64_t)uf.pv);     /* same prefix in every re-execution of the DFS */
+    }
     /* set up the allocation and the initial reference configuration, single-threaded */
     cstl_shared_ptr_init(&master);
     vrt_ev_begin();
@@ -446,11 +507,22 @@ static int run_execution(const struct scenario *sc)
             if (T[i].state == F_YIELDED) yielded++;
         }
         if (alive == 0) break;
-        if (n == 0) {
+        if (n == 0 && !(uf.on && (uf.phase == 1 || uf.phase == 2))) {
             vrt_fail("mt.deadlock.spinning-forever", "%d thread(s) spin on the lock flag and no thread can make progress", yielded);
         }
-        pick = n == 1 ? en[0] : choose(en, n, last);
-        if (n == 1) { sched_hash = vrt_mix(sched_hash, pick + 1); if (last >= 0 && pick != last) ctx_switches++; }
+        pick = -1;
+        if (uf.on && uf.phase < 3) {
+            /* a waiter in its burst is picked even when it is the only thread and has yielded */
+            pick = unfair_pick(en, n);
+            if (pick >= 0) { sched_hash = vrt_mix(sched_hash, pick + 1); if (last >= 0 && pick != last) ctx_switches++; }
+        }
+        if (pick < 0) {
+            if (n == 0) {
+                vrt_fail("mt.deadlock.spinning-forever", "%d thread(s) spin on the lock flag and no thread can make progress", yielded);
+            }
+            pick = n == 1 ? en[0] : choose(en, n, last);
+            if (n == 1) { sched_hash = vrt_mix(sched_hash, pick + 1); if (last >= 0 && pick != last) ctx_switches++; }
+        }
         last = pick;
         if (++steps > 20000) { VRT_COUNT("sched.executions.step-budget-exceeded-inconclusive"); return -1; }
         slice++;
@@ -461,6 +533,7 @@ static int run_execution(const struct scenario *sc)
         __sanitizer_finish_switch_fiber(main_fake, NULL, NULL);
         cur = NULL;
         if (abandon) siglongjmp(vrt_case_jmp, 1);
+        if (uf.on) unfair_ran(pick);
     }
     VRT_MAX("max.sched.steps-per-execution", steps);
 
@@ -578,6 +651,28 @@ static const struct scenario selected[] = {
 };
 #define NSELECTED ((int)(sizeof(selected) / sizeof(selected[0])))
 
+/* scenarios for the bounded-unfairness policy: a weak lock racing another lock, the reset of the last
+ * owner, or another lock of an allocation that has already expired */
+static const struct scenario unfair_sc[] = {
+    { 2, { 3, 2 }, { 1, 1 }, { { O_LOCK }, { O_LOCK } } },                              /* owner alive throughout */
+    { 2, { 2, 2 }, { 1, 1 }, { { O_LOCK }, { O_LOCK } } },                              /* expired allocation */
+    { 2, { 3, 2 }, { 3, 2 }, { { O_LOCK, O_RESET0, O_RESET1 }, { O_LOCK, O_RESET1 } } },
+    { 2, { 2, 2 }, { 2, 2 }, { { O_LOCK, O_LOCK }, { O_LOCK, O_WRESET } } },
+    { 3, { 1, 2, 2 }, { 1, 1, 1 }, { { O_RESET0 }, { O_LOCK }, { O_LOCK } } },
+    { 3, { 1, 2, 2 }, { 1, 2, 2 }, { { O_RESET0 }, { O_LOCK, O_RESET1 }, { O_LOCK, O_WRESET } } },
+    { 3, { 3, 2, 2 }, { 2, 1, 1 }, { { O_LOCK, O_RESET0 }, { O_LOCK }, { O_LOCK } } },
+    { 3, { 2, 2, 2 }, { 1, 1, 1 }, { { O_LOCK }, { O_LOCK }, { O_LOCK } } },
+    { 3, { 4, 2, 2 }, { 1, 1, 1 }, { { O_DROPX }, { O_LOCK }, { O_LOCK } } },
+    { 4, { 1, 2, 2, 2 }, { 1, 1, 1, 1 }, { { O_RESET0 }, { O_LOCK }, { O_LOCK }, { O_LOCK } } },
+    { 4, { 1, 1, 2, 2 }, { 1, 1, 2, 1 }, { { O_RESET0 }, { O_SHARE }, { O_LOCK, O_RESET1 }, { O_LOCK } } },
+    /* self-weak memory: the thread that runs the clear callback holds the flag inside it */
+    { 2, { 1, 2 }, { 1, 1 }, { { O_RESET0 }, { O_LOCK } }, 1 },
+    { 3, { 1, 2, 2 }, { 1, 1, 1 }, { { O_RESET0 }, { O_LOCK }, { O_LOCK } }, 1 },
+    { 3, { 3, 2, 2 }, { 2, 2, 1 }, { { O_RESET0, O_LOCK }, { O_LOCK, O_RESET1 }, { O_LOCK } }, 1 },
+};
+#define NUNFAIR ((int)(sizeof(unfair_sc) / sizeof(unfair_sc[0])))
+#define UNFAIR_PAIRS (MAXT * MAXT)      /* one case per scenario and ordered pair (A frozen, B waiter) */
+
 static int maxlen2;             /* script length for the exhaustive two-thread family */
 static uint64_t ncombo, npairs, nsample3, nrandom;
 
@@ -609,10 +704,77 @@ static void run_dfs_case(const struct scenario *sc, uint64_t cap, const char *fa
     VRT_MAX("max.interleavings-per-scenario", n);
 }
 
+/* one configuration of the unfair policy: the prefix and the bursts are fixed, the rest of the execution is
+ * explored by a capped DFS plus a few random walks.  Returns 0 when A has no f-th schedule point. */
+static int unfair_config(const struct scenario *sc, uint64_t idx, int *spun)
+{
+    const int cap = vrt_thorough ? 48 : 10, nrand = vrt_thorough ? 12 : 4;
+    int n = 0, k, contended = 0;
+    *spun = 0;
+    strategy = 0; dfs_len = 0;
+    for (k = 0; k < cap + nrand; k++) {
+        vrt_trace_reset();
+        VRT_OP4("sched.execution", "unfair: T%ld frozen after its step %ld, T%ld alone for up to %ld failed attempts/steps", uf.A, uf.f, uf.B, uf.K);
+        VRT_OP3("sched.execution", "unfair: then T%ld likewise (-1: nobody); prefix variant %ld; continuation #%ld", uf.C, uf.pv, k);
+        if (k >= cap) {
+            strategy = 1;
+            vrt_rng_seed(&sched_rng, vrt_seed ^ (idx << 20), ((uint64_t)uf.f << 24) ^ ((uint64_t)(uf.C + 1) << 16) ^ ((uint64_t)uf.pv << 12) ^ (uint64_t)(uf.K + k));
+        }
+        if (run_execution(sc) != 0) break;
+        if (uf.a_short) return 0;
+        VRT_COUNT("unfair.executions");
+        VRT_COUNT("interleavings.sampled");
+        if (ctx_switches > 0 && vrt_sig(0, vrt_mix(sched_hash, 0xF00D00 + idx))) VRT_COUNT("interleavings.sampled.distinct");
+        VRT_MAX("max.unfair.failed-attempts-in-a-row", uf.maxrun);
+        if (uf.spun[0] || uf.spun[1]) *spun = 1;
+        if (uf.maxrun >= 100) VRT_COUNT("unfair.executions.waiter-failed-100-in-a-row");
+        if (uf.maxrun >= 300) VRT_COUNT("unfair.executions.waiter-failed-300-in-a-row");
+        if (uf.spun[0] && uf.spun[1]) VRT_COUNT("unfair.executions.two-waiters-spun-in-turn");
+        if (n++ == 0) {
+            contended = uf.maxrun >= 8;
+            if (contended) VRT_COUNT("unfair.configurations.holder-frozen-inside-critical-section");
+            else { VRT_COUNT("unfair.configurations.no-contention-at-this-point"); break; }   /* an ordinary schedule: one is enough */
+        }
+        if (strategy == 0) {
+            while (dfs_len > 0 && dfs_chosen[dfs_len - 1] + 1 >= dfs_nopt[dfs_len - 1]) dfs_len--;
+            if (dfs_len == 0) { if (nrand == 0) break; k = cap - 1; continue; }
+            dfs_chosen[dfs_len - 1]++;
+        }
+    }
+    return 1;
+}
+
+static void run_unfair_case(uint64_t idx)
+{
+    const struct scenario *sc = &unfair_sc[idx / UNFAIR_PAIRS];
+    const int A = (int)(idx % UNFAIR_PAIRS) / MAXT, B = (int)(idx % MAXT), npv = vrt_thorough ? 6 : 4;
+    char d[256];
+    int pv, C, f, spun;
+    if (A >= sc->nthr || B >= sc->nthr || A == B) { VRT_COUNT("scenarios.unfair.skipped-no-such-pair"); return; }
+    describe(sc, d, sizeof(d));
+    vrt_case_note("bounded unfairness: T%d frozen at each of its schedule points in turn, T%d (and a third thread) run alone for K = 100 / 300: %s", A, B, d);
+    memset(&uf, 0, sizeof(uf));
+    uf.on = 1; uf.A = A; uf.B = B;
+    uf.seed = vrt_seed ^ (0xC06F00ull + idx) << 8;
+    for (pv = 0; pv < npv; pv++) for (C = -1; C < sc->nthr; C++) {
+        if (C == A || C == B) continue;
+        if (pv == 1 && sc->nthr - 2 - (C >= 0) <= 0) continue;         /* no bystander to run first */
+        uf.pv = pv; uf.C = C;
+        for (f = 1; f < 200; f++) {
+            uf.f = f; uf.K = 100;
+            if (!unfair_config(sc, idx, &spun)) break;
+            if (spun) { uf.K = 300; unfair_config(sc, idx, &spun); }
+        }
+    }
+    uf.on = 0;
+    VRT_COUNT("scenarios.unfair");
+}
+
 static void run_case(uint64_t idx)
 {
     struct scenario sc;
     memset(&sc, 0, sizeof(sc));
+    uf.on = 0;
     if (idx < npairs) {
         uint64_t a, b;
         pair_from_index(idx, &a, &b);
@@ -639,6 +801,7 @@ static void run_case(uint64_t idx)
         return;
     }
     idx -= nsample3;
+    if (idx >= nrandom) { run_unfair_case(idx - nrandom); return; }
     {
         /* larger scenarios under sampled schedules: 3-4 threads x up to 4 ops */
         vrt_rng g;
@@ -654,18 +817,52 @@ static void run_case(uint64_t idx)
             if (t == 1 && vrt_below(&g, 4) == 0) { sc.init[t] |= 4; sc.ops[t][vrt_below(&g, sc.nops[t])] = O_DROPX; }
         }
         describe(&sc, d, sizeof(d));
-        vrt_case_note("sampled schedules (%d random walks / PCT): %s", nsched, d);
-        for (k = 0; k < nsched; k++) {
+        vrt_case_note("sampled schedules (%d random walks / PCT, then %d with one thread frozen while others run alone): %s", nsched, nsched / 8, d);
+        for (k = 0; k < nsched + nsched / 8; k++) {
             strategy = 1 + (k & 1);
             vrt_rng_seed(&sched_rng, vrt_seed ^ (idx << 20), k);
             for (t = 0; t < MAXT; t++) prio[t] = 1 + vrt_below(&sched_rng, 1000);
             for (t = 0; t < 4; t++) pct_change[t] = 1 + vrt_below(&sched_rng, 60);
             vrt_trace_reset();
             VRT_OP2("sched.execution", "sampled schedule #%ld strategy %ld", k, strategy);
+            uf.on = 0;
+            if (k >= nsched) {
+                /* bounded unfairness at a random place of a random walk: some thread is frozen after a random
+                 * number of its steps while one or two others run alone (see unfair_pick) */
+                memset(&uf, 0, sizeof(uf));
+                uf.on = 1;
+                /* (a few draws each, preferring threads whose script contains a lock) */
+                for (i = 0; i < 4; i++) {
+                    int j, has = 0;
+                    uf.A = (int)vrt_below(&sched_rng, (uint32_t)sc.nthr);
+                    for (j = 0; j < sc.nops[uf.A]; j++) has |= sc.ops[uf.A][j] == O_LOCK;
+                    if (has) break;
+                }
+                for (i = 0; i < 4; i++) {
+                    int j, has = 0;
+                    uf.B = (uf.A + 1 + (int)vrt_below(&sched_rng, (uint32_t)sc.nthr - 1)) % sc.nthr;
+                    for (j = 0; j < sc.nops[uf.B]; j++) has |= sc.ops[uf.B][j] == O_LOCK;
+                    if (has) break;
+                }
+                uf.C = -1;
+                if (vrt_below(&sched_rng, 2)) for (t = 0; t < sc.nthr; t++) if (t != uf.A && t != uf.B) uf.C = t;
+                uf.f = 1 + (int)vrt_below(&sched_rng, 24);
+                uf.K = vrt_below(&sched_rng, 2) ? 100 : 300;
+                uf.pv = 2 + (int)vrt_below(&sched_rng, 4);
+                uf.seed = vrt_seed ^ (idx << 20) ^ (uint64_t)k;
+                VRT_OP4("sched.execution", "unfair: T%ld frozen after its step %ld, T%ld alone for up to %ld failed attempts/steps", uf.A, uf.f, uf.B, uf.K);
+                VRT_OP2("sched.execution", "unfair: then T%ld likewise (-1: nobody); random prefix %ld", uf.C, uf.pv);
+            }
             if (run_execution(&sc) == 0 && ctx_switches > 0) {
                 if (vrt_sig(0, vrt_mix(sched_hash, idx))) VRT_COUNT("interleavings.sampled.distinct");
             }
             VRT_COUNT("interleavings.sampled");
+            if (uf.on) {
+                VRT_COUNT("unfair.sampled.executions");
+                if (uf.maxrun >= 100) VRT_COUNT("unfair.sampled.waiter-failed-100-in-a-row");
+                if (uf.spun[0] && uf.spun[1]) VRT_COUNT("unfair.sampled.two-waiters-spun-in-turn");
+                uf.on = 0;
+            }
         }
         VRT_COUNT("scenarios.sampled");
     }
@@ -678,7 +875,7 @@ static uint64_t ncases(void)
     npairs = ncombo * (ncombo + 1) / 2;
     nsample3 = vrt_thorough ? 40000 : 8000;
     nrandom = vrt_thorough ? 30000 : 6000;
-    return npairs + NSELECTED + nsample3 + nrandom;
+    return npairs + NSELECTED + nsample3 + nrandom + (uint64_t)NUNFAIR * UNFAIR_PAIRS;
 }
 static void winit(void)
 {
@@ -689,7 +886,10 @@ static void winit(void)
 }
 static const char *const required[] = {
     "sched.executions", "sched.executions.with-context-switch", "lin.histories-linearizable", "sched.spins",
-    "scenarios.two-thread.exhausted", "interleavings.sampled", "sched.clear-callbacks.reentrant", NULL
+    "scenarios.two-thread.exhausted", "interleavings.sampled", "sched.clear-callbacks.reentrant",
+    "unfair.configurations.holder-frozen-inside-critical-section", "unfair.executions.waiter-failed-100-in-a-row",
+    "unfair.executions.waiter-failed-300-in-a-row", "unfair.executions.two-waiters-spun-in-turn",
+    "unfair.sampled.waiter-failed-100-in-a-row", NULL
 };
 static const struct vrt_harness H = { "memory_sched", ncases, run_case, winit, NULL, required, 16 };
 int main(int argc, char **argv) { return vrt_main(argc, argv, &H); }
